@@ -90,7 +90,16 @@ fn test_runner(args: &[String]) -> i32 {
 
     fn build_cfg(c: &Value) -> BuildConfig {
         let mut cfg = BuildConfig::new(c["builder"].as_str().unwrap(), c["app_dir"].as_str().unwrap());
-        let bps: Vec<BuildpackReference> = c["buildpacks"].as_array().unwrap().iter().map(|b| BuildpackReference::Other(b.as_str().unwrap().to_string())).collect();
+        let mut bps: Vec<BuildpackReference> = c["buildpacks"].as_array().unwrap().iter().map(|b| BuildpackReference::Other(b.as_str().unwrap().to_string())).collect();
+        match c["crate_buildpack"].as_str() {
+            Some("current") => bps.insert(0, BuildpackReference::CurrentCrate),
+            Some("workspace") => bps.insert(0, BuildpackReference::WorkspaceBuildpack("verif/current".parse().unwrap())),
+            _ => {}
+        }
+        if c["crate_buildpack"].is_string() {
+            // the musl target is not installed in this sandbox
+            cfg.target_triple("x86_64-unknown-linux-gnu");
+        }
         cfg.buildpacks(bps);
         for kv in c["env"].as_array().unwrap() {
             cfg.env(kv[0].as_str().unwrap(), kv[1].as_str().unwrap());
